@@ -608,7 +608,8 @@ def _make_fn_with_signature(
 
     def_name = name
     if not def_name.isidentifier() or keyword.iskeyword(def_name):
-        # E.g. lambdas, whose `__name__` is `<lambda>`.
+        # E.g. lambdas, whose `__name__` is `<lambda>`. (The generated name is kept as
+        # the `__name__` too, as beartype pastes that into the source of its wrapper.)
         def_name = _gensym(param_names, prefix="fn")
     scope = {def_name: None}
     name_to_annotation = {}
@@ -686,7 +687,6 @@ def _make_fn_with_signature(
     exec(fnstr, scope)
     fn = scope[def_name]
     del scope[def_name]  # Avoids introducing a reference cycle.
-    fn.__name__ = name
     fn.__module__ = module
     fn.__qualname__ = qualname
     assert fn is not None
